@@ -74,6 +74,7 @@ ZOO = {
     "ValueError": lambda: ValueError("no-value", 7),
     "UnicodeDecodeError": _ude,
     # not caught by a pipe
+    "Exception": lambda: Exception("plain", 1),
     "ZeroDivisionError": lambda: ZeroDivisionError("div"),
     "RuntimeError": lambda: RuntimeError("rt", "x"),
     "OSError": lambda: OSError(5, "io-msg"),
@@ -100,6 +101,7 @@ ZOO_CLASSES = {
     "KeyError": KeyError, "IndexError": IndexError,
     "LookupError": LookupError, "TypeError": TypeError,
     "ValueError": ValueError, "UnicodeDecodeError": UnicodeDecodeError,
+    "Exception": Exception,
     "ZeroDivisionError": ZeroDivisionError, "RuntimeError": RuntimeError,
     "OSError": OSError, "AssertionError": AssertionError,
     "MemoryError": MemoryError, "StopIteration": StopIteration,
@@ -114,7 +116,7 @@ EXISTS_CAUGHT = (AttributeError, LookupError, TypeError, NameError)
 CAUGHT_NAMES = ["AttributeError", "NameError", "KeyError", "IndexError",
                 "LookupError", "TypeError", "ValueError",
                 "UnicodeDecodeError", "E4", "E5"]
-UNCAUGHT_NAMES = ["ZeroDivisionError", "RuntimeError", "OSError",
+UNCAUGHT_NAMES = ["Exception", "ZeroDivisionError", "RuntimeError", "OSError",
                   "AssertionError", "MemoryError", "StopIteration", "E1",
                   "E2", "RecursionError", "E3", "E6", "FileNotFoundError",
                   "SyntaxError"]
@@ -305,6 +307,28 @@ class Handler:
         self.calls.append((type(exc).__name__, _args(exc)))
         if self.fail_with:
             raise ZOO[self.fail_with]()
+
+
+_NOT_STATE = {"args", "with_traceback", "add_note"}
+
+
+def exc_state(e: BaseException) -> dict:
+    """What an exception object carries besides args: errno / strerror /
+    filename, value, code, object / start / end / reason, msg / lineno /
+    offset / text, slot and instance attributes of custom classes."""
+    out = {}
+    for name in dir(e):
+        if name.startswith("_") or name in _NOT_STATE:
+            continue
+        try:
+            v = getattr(e, name)
+        except Exception:       # noqa: BLE001
+            continue
+        if callable(v):
+            continue
+        out[name] = v if isinstance(v, (int, str, bytes, type(None),
+                                        tuple)) else repr(v)
+    return out
 
 
 def _args(e: BaseException):
